@@ -4,6 +4,7 @@ import (
 	"verif/sim/core"
 	"verif/sim/ev"
 	"verif/sim/layerc"
+	"verif/sim/layerd"
 	"verif/sim/layerr"
 )
 
@@ -41,6 +42,8 @@ var compR = map[string]string{
 }
 
 var registry = map[string]check{
+	"C16": {parts: []part{{"disk", layerd.C16, 16, 96}}, level: "fault_enumeration", rule: "wip", components: compR},
+	"C15": {parts: []part{{"disk", layerd.C15, 16, 48}}, level: "fault_enumeration", rule: "wip", components: compR},
 	"C07": {parts: []part{{"compiled", layerc.C07, 16, 160}}, level: "exploration", rule: "wip", components: compR},
 	"C13": {parts: []part{{"compiled", layerc.C13, 16, 160}}, level: "exploration", rule: "wip", components: compR},
 	"C03": {parts: []part{{"compiled", layerc.C03, 16, 160}}, level: "exploration", rule: "wip", components: compR},
